@@ -9,7 +9,7 @@ def check(tier):
     rep = Reporter(PID, tier)
     pvh = build_harness()
     deep = None if tier == "quick" else {"escape": 5, "addslashes": 6, "escapejs": 4, "urlencode": 4, "tags": 6}
-    filtercommon.filter_replay(rep, pvh, ["escape", "addslashes", "escapejs", "urlencode", "tags"], deep)
+    filtercommon.filter_replay(rep, pvh, ["escape", "addslashes", "escapejs", "urlencode", "tags", "tagcase"], deep)
     r = run_harness(pvh, ["c17-sweep"], timeout=3000)
     for v in r["violations"]:
         rep.violation(v["key"], v["detail"])
